@@ -81,6 +81,8 @@ type Op struct {
 	Verb    string      `json:"verb"`
 	URL     string      `json:"url"`
 	Headers [][2]string `json:"headers"`
+	// header values that are not valid UTF-8 travel base64-encoded (JSON cannot carry them)
+	HeadersB64 [][2]string `json:"headersB64"`
 	BodyB64 string      `json:"bodyB64"`
 	NoBody  bool        `json:"noBody"`
 	Handler HandlerCfg  `json:"handler"`
@@ -411,6 +413,9 @@ func runRaw(st *opState) {
 	r.RequestURI = op.URL
 	for _, h := range op.Headers {
 		r.Header[http.CanonicalHeaderKey(h[0])] = append(r.Header[http.CanonicalHeaderKey(h[0])], h[1])
+	}
+	for _, h := range op.HeadersB64 {
+		r.Header[http.CanonicalHeaderKey(h[0])] = append(r.Header[http.CanonicalHeaderKey(h[0])], string(unb64(h[1])))
 	}
 	r = r.WithContext(context.WithValue(context.Background(), opKey{}, st))
 	done := make(chan struct{})
